@@ -37,6 +37,26 @@ def is_mixed(U, l):
     return d.get("dtype") is None and len({type(i) for i in d["items"]}) > 1
 
 
+def zero_whole_rows(U, letters, vals, wide_letter, picks):
+    """Set every entry along ``wide_letter`` to zero for some combinations of the other dimensions, so that whole
+    rows of a sparse wide frame are absent (vals in C order over ``letters``)."""
+    import itertools as _it
+
+    shape = [len(build.udim(U, l)["items"]) for l in letters]
+    w = letters.index(wide_letter)
+    outer = list(_it.product(*[range(n) for i, n in enumerate(shape) if i != w]))
+    vals = list(vals)
+    for p_ in picks:
+        combo = list(outer[p_ % len(outer)])
+        for k in range(shape[w]):
+            idx = combo[:w] + [k] + combo[w:]
+            flat = 0
+            for i_, n in zip(idx, shape):
+                flat = flat * n + i_
+            vals[flat] = 0.0
+    return vals
+
+
 def values_mistakable_for_items(U, letters, df):
     """The strong clause covers dimensions identified only through their items 'when the values cannot be
     mistaken for items'.  True if some non-dimension column of the frame holds exactly the item set of a
@@ -122,8 +142,10 @@ def export_cases(draw):
     letters = x["letters"]
     sparse = draw(st.booleans())
     dtc = None
-    if len(letters) >= 2 and not sparse:
-        dtc = draw(st.sampled_from([None] + letters))
+    if len(letters) >= 2:
+        dtc = draw(st.sampled_from([None] + letters)) if not sparse else draw(st.sampled_from([None, None] + letters))
+        if sparse and dtc is not None:
+            x = dict(x, vals=zero_whole_rows(U, letters, x["vals"], dtc, draw(st.lists(st.integers(0, 30), min_size=1, max_size=3))))
         if dtc is not None and draw(st.booleans()):
             dtc = build.udim(U, dtc)["name"]
     return {"universe": U, "x": x, "index": draw(st.booleans()), "sparse": sparse, "dim_to_columns": dtc, "again": draw(st.booleans())}
@@ -149,6 +171,12 @@ def run_roundtrip(desc):
     x = build.array(U, xd)
     letters = xd["letters"]
     dtc = desc.get("dim_to_columns")
+    if desc["sparse"] and dtc is not None and xd["mode"] == "float":
+        wl_ = dtc if len(dtc) == 1 else [d["letter"] for d in U["dims"] if d["name"] == dtc][0]
+        mx_ = build.marr(U, xd)
+        for it in build.udim(U, wl_)["items"]:
+            if not any(v != 0 for k_, v in mx_.data.items() if dict(zip(mx_.letters, k_))[wl_] == it):
+                raise Discard("a sparse wide frame without a column for one of the items is not a complete table")
     df = x.to_df(index=desc["index"], dim_to_columns=dtc, sparse=desc["sparse"])
     cl = [f"index:{desc['index']}", "wide" if dtc else "long", "sparse" if desc["sparse"] else "dense"]
     if desc.get("reset_levels") and desc["index"]:
@@ -239,7 +267,11 @@ def roundtrip_cases(draw):
         dtc = draw(st.sampled_from(letters))
         d = build.udim(U, dtc)
         if sparse and len(d["items"]) > 1 and mode == "float":
-            sparse = False  # a wide sparse frame must keep every item column (docs: all items of a dimension are given)
+            # a wide sparse frame must keep every item column (docs: all items of a dimension are given): checked when
+            # the case is run; many zeros, so that whole rows of the wide frame vanish
+            n_ = gen._size(U, letters)
+            x = dict(x, vals=draw(st.lists(st.sampled_from([0.0, 1.5, -2.0, 3.25, 7.0, 0.5]), min_size=n_, max_size=n_)))
+            x["vals"] = zero_whole_rows(U, letters, x["vals"], dtc, draw(st.lists(st.integers(0, 30), min_size=1, max_size=3)))
         if csv and is_untyped_int(U, dtc):
             csv = False  # untyped int items do not survive as CSV header text
         if draw(st.booleans()):
